@@ -169,3 +169,12 @@ package jsonrpc2
 //@ ensures [in-order]  err == nil ==> result.msgstart == old(nextOffset(codec))
 //@ ensures [exactly-once] err == nil ==> nextOffset(codec) == old(nextOffset(codec)) + result.msglen
 //@ ensures [no-skipping] err != nil ==> nextOffset(codec) == old(nextOffset(codec)) || old(codec.decoder) == nil
+
+// ---- HTTP transport (C17): a body is only ever truncated by the configured MaxContentLength ----
+//@ func (*HTTPService).Call
+//@ property C17
+//@ callreq LimitReader [only-the-configured-limit] : arg1 == service.MaxContentLength && service.MaxContentLength > 0
+
+//@ func (*HTTPServer).ServeHTTP
+//@ property C17
+//@ callreq LimitReader [only-the-configured-limit] : arg1 == h.MaxContentLength && h.MaxContentLength > 0
